@@ -63,6 +63,7 @@ fn ancestor() -> Database {
 pub enum Edit {
     EditEntry(u64),            // change a field and commit (history item, mtime)
     EditEntryUncommitted(u64), // change a field and the mtime, no history item
+    SetEntry(u64, u8),         // set a field to one of two fixed values and commit: reverts and identical edits on both sides
     AddEntry(u64),             // under group
     AddGroup(u64),             // under group
     MoveEntry(u64, u64),       // entry -> group
@@ -148,6 +149,20 @@ pub fn apply(db: &mut Database, ed: &Edit, at: i64, fresh: &mut u64) -> bool {
         Edit::EditEntry(id) => {
             if let Some(e) = find_entry_mut(&mut db.root, *id) {
                 e.fields.insert("UserName".into(), Value::Unprotected(format!("u@{}", at)));
+                e.times.set_last_modification(ts(at));
+                let snap = e.clone();
+                if e.history.is_none() {
+                    e.history = Some(History::default());
+                }
+                e.history.as_mut().unwrap().add_entry(snap);
+                true
+            } else {
+                false
+            }
+        }
+        Edit::SetEntry(id, v) => {
+            if let Some(e) = find_entry_mut(&mut db.root, *id) {
+                e.fields.insert("UserName".into(), Value::Unprotected(format!("fixed{}", v)));
                 e.times.set_last_modification(ts(at));
                 let snap = e.clone();
                 if e.history.is_none() {
@@ -273,6 +288,8 @@ pub fn alphabet(db: &Database) -> Vec<Edit> {
     for e in &entries {
         out.push(Edit::EditEntry(*e));
         out.push(Edit::EditEntryUncommitted(*e));
+        out.push(Edit::SetEntry(*e, 0));
+        out.push(Edit::SetEntry(*e, 1));
         out.push(Edit::DeleteEntry(*e));
         for g in &groups {
             out.push(Edit::MoveEntry(*e, *g));
